@@ -36,8 +36,8 @@ fn plan(prop: &str) -> Plan {
     match prop {
         "C07" => Plan {
             level: "exploration",
-            runs_quick: 60_000,
-            runs_thorough: 1_500_000,
+            runs_quick: 1_500_000,
+            runs_thorough: 60_000_000,
             builds_quick: &["default", "preserve_order"],
             builds_thorough: ALL_BUILDS,
             rule: "One evaluation = one seeded scenario (type description T + value v + writer-peer choices H1-H4 + F-SER fault plan) driven through all 7 serializers behind the serializer seam and read back by the reader peer R(T) behind the deserializer seam. Scenarios are drawn by the swarm generator (sim/src/gen.rs) from run seed = mix(VERIF_SEED, property, tier, run index). A scenario is non-trivial if its type description has >= 3 nodes; distinct = distinct conversation shape (hash of the full seam event sequence of the run with payload values erased, i.e. the sequence of serializer/deserializer/visitor calls and their nesting depth), counted with a hash set.",
